@@ -46,6 +46,33 @@ def sidesCompatible (S : Schema) (doc : Node) (f t : Nat) (sl : Slice) : Bool :=
   bridgeCompat S (depthAt doc.kids f - sl.openStart)
     (singleDepth sl.content sl.openStart sl.openEnd) doc.kids f doc.kids t
 
+/-- **fit guard of `replaceAround_undo`**: the gap `gf … gt`, removed from the old slice
+    `doc.slice(f, t)`, can be put back by `insert_at` — `insert_into`'s check
+    `parent.can_replace(index, index, gap)` of the node the gap lands in (when that node is complete
+    in the slice) does not reject it.  A successful forward step does not imply this: at a position
+    inside a text child the check counts that text twice, and where `remove_range` merged the two
+    texts around the gap it places the gap before the merged text. -/
+def gapFitsBack (S : Schema) (doc : Node) (f t gf gt : Nat) : Bool :=
+  match doc.slice f t, doc.slice gf gt with
+  | .ok old, .ok gap =>
+    match old.removeBetween (gf - f) (gt - f) with
+    | .ok rem =>
+      match rem.insertAt S (gf - f) gap.content with
+      | .ok (some _) => true
+      | _ => false
+    | .error _ => false
+  | _, _ => false
+
+/-- the guard `sidesCompatible` for the plain replace a replace-around step performs (its slice
+    with the gap inserted) -/
+def sidesCompatibleAround (S : Schema) (doc : Node) (f t gf gt : Nat) (sl : Slice) (ins : Nat) : Bool :=
+  match doc.slice gf gt with
+  | .ok gap =>
+    match sl.insertAt S ins gap.content with
+    | .ok (some inserted) => sidesCompatible S doc f t inserted
+    | _ => true
+  | .error _ => true
+
 /-- `compatible_content` is transitive on the node types of the schema -/
 def compatTransB (S : Schema) : Bool :=
   (List.range S.nodes.size).all fun x => (List.range S.nodes.size).all fun y =>
